@@ -24,6 +24,11 @@ PROP_AUDIT = {
     # object_modified "MUST be an exact match for the modified time of the STIX Object being referenced", and a 2.1 modified
     # may carry more than three fractional digits: at-least-millisecond, like modified itself
     ("2.1", "types", "language-content", "object_modified"): {"precision": "millisecond", "constraint": "min"},
+    # 2.1 section 5.1: source_ref / target_ref "MUST be the identifier of a SDO or SCO (i.e., it cannot point to an SRO, Bundle,
+    # Language Content, or Marking Definition)"; an extension definition is neither an SDO nor an SCO either (the bootstrap copied
+    # the library's list, which did not name it: repository fix bd848d4)
+    ("2.1", "types", "relationship", "source_ref"): {"invalid": ["bundle", "extension-definition", "language-content", "marking-definition", "relationship", "sighting"]},
+    ("2.1", "types", "relationship", "target_ref"): {"invalid": ["bundle", "extension-definition", "language-content", "marking-definition", "relationship", "sighting"]},
     # tlp value is a closed vocabulary
     ("2.0", "markings", "tlp", "tlp"): {"k": "enum", "values": ["white", "green", "amber", "red"]},
     ("2.1", "markings", "tlp", "tlp"): {"k": "enum", "values": ["white", "green", "amber", "red"]},
